@@ -1,5 +1,6 @@
 import Autog.Model.Phase2
 import Autog.Lemmas.LongestPathTotal
+import Autog.Properties.C01
 /-! # C11 — longest-path layering uses the minimum number of layers
 
     Theorems about the model `heights` / `execLongestPath` (Autog/Model/Phase2.lean; key `T:phase2-longestpath` compares it with
@@ -276,5 +277,28 @@ theorem C11_band_count (g g' : G) (rank : Nat → Nat) (hR : ∀ v w, w ∈ outN
       omega
 
 example : (execLongestPath exLP).toOption.map (fun g => g.nodes.toList.map (·.layer)) = some [0, 1, 2] := by decide +kernel
+
+
+/-- **C11 / C03 on every input**: for any non-empty edge list, any options, every component of more than one node and either cycle
+    breaker: on whatever state phase 1 returns, the LongestPath layerer puts the target of every out-edge that is not a self-loop at
+    least one layer BELOW its source — nothing assumed (adjacency consistency: `adjL_phase1`; acyclicity: the cycle test phase 1 runs
+    last is complete, `C01_cycle_test_complete`) -/
+theorem C11_longestpath_down_any_input (cfg : Cfg) (es : InEdges) (hne : es ≠ []) :
+    ∃ cs, preProcess cfg es = .ok cs ∧ ∀ c ∈ cs, 2 ≤ c.1.nodes.size → ∀ alg g1, phase1 alg c.1 = .ok g1 →
+      ∀ g', execLongestPath g1 = .ok g' → ∀ v ∈ g1.nodeIds, ∀ w ∈ outNbrs g1 v, w ≠ v → g'.layerOf v + 1 ≤ g'.layerOf w := by
+  obtain ⟨cs, hcs⟩ := preProcess_total cfg es hne
+  refine ⟨cs, hcs, fun c hc hn2 alg g1 h1 g' hlp v hv w hw hvw => ?_⟩
+  have hn : (c.1.nodes.size == 1) = false := by simp; omega
+  have hA := adjL_phase1 alg c.1 g1 (adjL_preProcess cfg es cs hcs c hc) h1
+  obtain ⟨rank, hR⟩ := rank_of_acyclic g1 hA (phase1_ok_acyclic alg c.1 g1 hn h1)
+  refine C11_longestpath_feasible g1 g' rank hR ?_ ?_ hlp v w hv hw hvw
+  · intro x hx
+    have hx' : ¬ x < g1.nodes.size := by simpa [G.nodeIds] using hx
+    simp only [outNbrs, (node_default_lists g1 x hx').2, List.map_nil]
+  · intro x _ y hy
+    unfold outNbrs at hy
+    obtain ⟨e, he, rfl⟩ := List.mem_map.1 hy
+    have := (hA.toAdj.ends e (hA.toAdj.outs x e he).1).2
+    simpa [G.nodeIds] using this
 
 end Autog
